@@ -83,8 +83,20 @@ def pause_ms(rng):
 TEXTS = [b'', b'A', b'Loading...', b'Side 1', b'tape \x7f test', b'x' * 40]
 
 def info_element(rng, allow_stop48):
-    v = rng.choice(['group', 'groupend', 'text', 'message', 'archive', 'hardware', 'custom', 'glue'] + (['stop48'] if allow_stop48 else []))
+    v = rng.choice(['group', 'groupend', 'text', 'message', 'archive', 'hardware', 'custom', 'glue'] + (['stop48'] if allow_stop48 else [])
+                   + ['jump', 'call', 'return', 'select', 'emulation', 'snapshot'])
     e = {'k': 'info', 'v': v, 'text': rng.choice(TEXTS)}
+    if v == 'jump':
+        e['n'] = rng.choice([1, 2, -1, 5])
+    elif v == 'call':
+        e['offsets'] = [rng.choice([1, 2, -1, 3]) for _ in range(rng.choice([0, 1, 2, 3, 7]))]
+    elif v == 'select':
+        e['items'] = [(rng.choice([1, 2, 3]), rng.choice([t for t in TEXTS if len(t) < 31] or [b'x'])[:30]) for _ in range(rng.choice([0, 1, 2, 4]))]
+    elif v == 'emulation':
+        e['raw8'] = rng.randbytes(8)
+    elif v == 'snapshot':
+        e['type'] = rng.choice([0, 1])
+        e['blob'] = rng.randbytes(rng.choice([0, 1, 27, 300]))
     if v == 'archive':
         e['items'] = [(rng.choice([0, 1, 2, 3, 4, 8, 255]), rng.choice(TEXTS)) for _ in range(rng.randrange(0, 4))]
     elif v == 'hardware':
